@@ -189,6 +189,8 @@ def main(argv):
         return 2 if res["inconclusive"] else 0
 
     cases = mod.cases(tier, seed)
+    if os.environ.get("VERIF_ONLY"):  # debugging aid: keep the cases whose key starts with this prefix
+        cases = [c for c in cases if c["key"].startswith(os.environ["VERIF_ONLY"])]
     keys = [c["key"] for c in cases]
     assert len(set(keys)) == len(keys), "duplicate case keys"
     jobs = int(os.environ.get("VERIF_JOBS", "16"))
